@@ -35,7 +35,8 @@ def tlc_scenarios(work, n, seed_):
     rnd = random.Random("spy-tlc-%d" % seed_)
     per = max(1, n // 5)
     for mf in range(5):
-        name = _cfg_with(work, "Gen_Spy.cfg", "Gen_Spy_%d_%d.cfg" % (seed_, mf), {"MaxFaults": mf, "GenDepth": 6 + mf})
+        name = _cfg_with(work, "Gen_Spy.cfg", "Gen_Spy_%d_%d.cfg" % (seed_, mf),
+                         {"MaxFaults": mf, "GenDepth": 6 + mf, "AllowInvalid": "TRUE"})
         r = vlib.tlc(work, "Gen_Spy", name, workers=1,
                      args=["-simulate", "num=%d" % per, "-depth", "80", "-seed", str(seed_ * 10 + mf)], timeout=300)
         hs = vlib.tlc_prints(r["out"], "SCN")
@@ -52,11 +53,107 @@ def tlc_scenarios(work, n, seed_):
         for h in uniq[:per]:
             steps = []
             for st in h:
+                if st["ev"] == "Subscribe" and st["a"].get("valid") is False:
+                    # the model's invalid request = a request with a filter entry of an unknown kind
+                    st = {"ev": "Subscribe", "a": {"s": st["a"]["s"], "f": st["a"]["f"], "unknown": rnd.choice([1, 1, 2]),
+                                                   "at": rnd.choice(["start", "end"])}}
                 steps.append(st)
                 if rnd.random() < 0.15:
                     steps.append({"ev": "Sync", "a": {}})
             res.append({"steps": steps, "src": "tlc"})
     return res
+
+
+MIXED_UNDECODABLE = os.environ.get("VERIF_C20_MIXED_UNDECODABLE", "0") == "1"
+BAD_KINDS = ["empty-payload", "empty-payload", "truncated", "short", "version"]
+
+
+def decorate(sc, r):
+    """Input classes added to every kind of scenario (own random stream, the scenario's commands stay as they are):
+    * client connections: streams opened over one connection share the peer address of their context;
+    * an extra subscription whose request carries filter entries of an unknown kind (all of them, or mixed with
+      emitter filters);
+    * published bytes that do not decode as a VAA -- only where every subscription of the scenario is filter-less:
+      with a filtered subscription present the current Publish stops at the first filtered subscription it visits (map
+      order), see proposals/C20-undecodable-vaa-partial-delivery.txt; VERIF_C20_MIXED_UNDECODABLE=1 lifts the limit."""
+    steps = sc["steps"]
+    subs = [st for st in steps if st["ev"] == "Subscribe"]
+    if subs and r.random() < 0.5:
+        pool = ["c%d" % (i + 1) for i in range(max(1, (len(subs) + 1) // 2))]
+        for st in subs:
+            st["a"]["conn"] = r.choice(pool)
+    if r.random() < 0.15:
+        grid = [{"c": c, "a": a} for c in CHAINS for a in ADDRS]
+        for j in range(r.choice([1, 1, 2])):
+            f = r.sample(grid, r.choice([0, 0, 1, 2]))
+            a = {"s": "z%d" % (j + 1), "f": f, "unknown": r.choice([1, 1, 2]), "at": r.choice(["start", "end"])}
+            if subs and r.random() < 0.5:
+                a["conn"] = r.choice(subs)["a"].get("conn", "")
+            steps.insert(r.randrange(0, len(steps) + 1), {"ev": "Subscribe", "a": a})
+    filtered = any(st["a"].get("f") and not st["a"].get("unknown") for st in steps if st["ev"] == "Subscribe")
+    if (MIXED_UNDECODABLE or not filtered) and r.random() < 0.6:
+        for j in range(r.choice([1, 2, 3])):
+            steps.insert(r.randrange(0, len(steps) + 1),
+                         {"ev": "Publish", "a": {"v": {"id": "b%d" % (j + 1), "em": {"c": 0, "a": "none"}, "bad": r.choice(BAD_KINDS)}}})
+    return sc
+
+
+def gen_inputs(r):
+    """Focused scenarios for the three input classes of decorate()."""
+    grid = [{"c": c, "a": a} for c in CHAINS for a in ADDRS]
+    kind = r.choice(["shared-conn", "shared-conn", "unknown-filters", "undecodable", "undecodable"])
+    steps = []
+    if kind == "shared-conn":
+        n = r.choice([2, 3, 4, 5])
+        conns = ["c1"] if r.random() < 0.5 else ["c1", "c2"]
+        used = r.sample(grid, 2)
+        for i in range(n):
+            f = r.choice([[], [], [used[0]], [used[1]], used])
+            steps.append({"ev": "Subscribe", "a": {"s": "s%d" % (i + 1), "f": f, "conn": r.choice(conns)}})
+        vid = 0
+        for phase in range(3):
+            for _ in range(r.choice([1, 2, 3])):
+                vid += 1
+                steps.append({"ev": "Publish", "a": {"v": {"id": "v%d" % vid, "em": r.choice(used)}}})
+            if phase < 2:
+                s = "s%d" % r.randrange(1, n + 1)
+                steps.append({"ev": r.choice(["Cancel", "Cancel", "Fail", "Sync"]), "a": {"s": s}})
+                if r.random() < 0.5:
+                    steps.append({"ev": "Sync", "a": {}})
+                if r.random() < 0.4:
+                    n += 1
+                    steps.append({"ev": "Subscribe", "a": {"s": "s%d" % n, "f": r.choice([[], [used[0]]]), "conn": r.choice(conns)}})
+    elif kind == "unknown-filters":
+        used = r.sample(grid, 3)
+        steps.append({"ev": "Subscribe", "a": {"s": "s1", "f": r.choice([[], [used[0]]])}})
+        for i, shape in enumerate(r.sample(["all-unknown", "all-unknown-2", "unknown-first", "unknown-last"], r.choice([1, 2, 3]))):
+            f = [] if shape.startswith("all") else [r.choice(used[:2])]
+            steps.append({"ev": "Subscribe", "a": {"s": "z%d" % (i + 1), "f": f, "unknown": 2 if shape.endswith("2") else 1,
+                                                   "at": "end" if shape == "unknown-last" else "start"}})
+        for i in range(r.choice([2, 3, 5])):
+            steps.append({"ev": "Publish", "a": {"v": {"id": "v%d" % (i + 1), "em": r.choice(used)}}})
+    else:
+        n = r.choice([1, 2, 3, 4])
+        for i in range(n):
+            steps.append({"ev": "Subscribe", "a": {"s": "s%d" % (i + 1), "f": []}})
+        if MIXED_UNDECODABLE:
+            for j in range(r.choice([1, 2])):
+                steps.insert(r.randrange(0, len(steps) + 1), {"ev": "Subscribe", "a": {"s": "t%d" % (j + 1), "f": [r.choice(grid)]}})
+        if n > 1 and r.random() < 0.4:
+            steps.append({"ev": r.choice(["Stall", "Fail", "Cancel"]), "a": {"s": "s%d" % r.randrange(1, n + 1)}})
+        for i in range(r.choice([2, 3, 4, 6])):
+            v = {"id": "v%d" % (i + 1), "em": r.choice(grid)}
+            if r.random() < 0.55:
+                v = {"id": "b%d" % (i + 1), "em": {"c": 0, "a": "none"}, "bad": r.choice(BAD_KINDS)}
+            steps.append({"ev": "Publish", "a": {"v": v}})
+            if r.random() < 0.2:
+                steps.append({"ev": "Sync", "a": {}})
+    return {"steps": steps, "src": "inputs-" + kind}
+
+
+def input_scenarios(seed_, n):
+    rnd = random.Random("spy-inputs-%d" % seed_)
+    return [gen_inputs(rnd) for _ in range(n)]
 
 
 CHAINS = [2, 4, 255]
@@ -161,6 +258,11 @@ def flood_scenarios(seed_, variants=("resume", "fail")):
 def gen_scenarios(seed_, n):
     rnd = random.Random("spy-gen-%d" % seed_)
     return [gen_scenario(rnd) for _ in range(n)]
+
+
+def decorate_all(scenarios, seed_):
+    rnd = random.Random("spy-decorate-%d" % seed_)
+    return [decorate(sc, rnd) if not str(sc.get("src", "")).startswith(("flood", "inputs")) else sc for sc in scenarios]
 
 
 # ------------------------------------------------------------------ replay + validation
@@ -304,16 +406,19 @@ def classify_reject(trace_lines, bad):
         return stall_signature(bad)
     if ev == "Panic":
         return panic_signature(bad)
-    pubs, filt, got, dupf = {}, {}, {}, {}
+    pubs, filt, got, dupf, okv, valid, order = {}, {}, {}, {}, {}, {}, []
     for ln in trace_lines:
         if ln is bad:
             break
         a = ln.get("a", {})
         if ln["ev"] == "PublishCalled":
             pubs[a["v"]["id"]] = a["v"]["em"]
+            okv[a["v"]["id"]] = a["v"].get("ok", True)
+            order.append((ln["n"], a["v"]["id"]))
         elif ln["ev"] == "SubscribeCalled":
             filt[a["s"]] = a["f"]
             dupf[a["s"]] = a.get("dup", False)
+            valid[a["s"]] = a.get("valid", True)
         elif ln["ev"] in SEND_EVS:
             got.setdefault(a["s"], []).append(a["v"])
     a = bad.get("a", {})
@@ -323,10 +428,16 @@ def classify_reject(trace_lines, bad):
         if v not in pubs:
             return "reject/delivery/never-published"
         f = filt.get(s, [])
-        if f and pubs[v] not in f:
+        if not valid.get(s, True):
+            return "reject/delivery/to-a-subscription-whose-request-had-an-unknown-filter-kind"
+        if f and (pubs[v] not in f or not okv.get(v, True)):
             return "reject/delivery/filter-mismatch"
         if v in got.get(s, []):
             return "reject/delivery/duplicate%s" % ("-with-repeated-filter-entry" if dupf.get(s) else "")
+        sub_n = next((ln["n"] for ln in trace_lines if ln["ev"] == "Subscribed" and ln["a"]["s"] == s), 0)
+        missing = [w for n, w in order if n > sub_n and w != v and w not in got.get(s, []) and (not f or (okv.get(w, True) and pubs[w] in f))]
+        if missing and not okv.get(missing[0], True):
+            return "reject/delivery/undecodable-bytes-not-delivered-to-a-subscriber-without-filters"
         return "reject/delivery/order-or-missing-predecessor%s" % ("-with-repeated-filter-entry" if dupf.get(s) else "")
     if ev == "End":
         live = set()
@@ -341,4 +452,8 @@ def classify_reject(trace_lines, bad):
         return "reject/End/owed-message-not-delivered-or-subscription-lost"
     if ev == "Removed":
         return "reject/Removed/stream-ended-without-cause"
+    if ev == "Subscribed" and not valid.get(a.get("s"), True):
+        return "reject/Subscribed/request-with-unknown-filter-kind-was-accepted"
+    if ev == "PublishReturned" and a.get("err"):
+        return "reject/PublishReturned/error-for-a-decodable-vaa"
     return "reject/%s/not-allowed-here" % ev
